@@ -4,7 +4,7 @@
    (rules::valid_tag, valid_entity, valid_boolean_property, valid_property) and the three flags;
    the encoding validators enc_valid / enc_vof (cppcms::encoding::valid / validate_or_filter) are
    universally quantified functions constrained only by the stated premises. *)
-From CppcmsV Require Import Base.Tac Base.Sweep C04.Defs C04.Proofs1.
+From CppcmsV Require Import Base.Tac Base.Sweep C04.Defs C04.Proofs1 C04.Proofs2 C04.Proofs3 C04.Proofs4 C04.Proofs5 C04.Proofs6 C04.Proofs7 C04.Proofs8 C04.Proofs9 C04.Proofs10 C04.Proofs11 C04.Link Base.CSem gen.Gen_xss gen.Gen_xss2.
 Local Open Scope N_scope.
 
 (* ---- 1. verdicts: both entry points agree, valid input is returned unchanged, validation implies
@@ -43,3 +43,216 @@ Print Assumptions tokens_partition_input.
 Theorem tokens_have_their_shape : forall x, Forall (fun tk => tok_form (fst tk) (snd tk)) (split x).
 Proof. exact split_forms. Qed.
 Print Assumptions tokens_have_their_shape.
+
+(* ---- 3. filter_shape (the security core): for every input and every rule set the text written by
+        validate_and_filter_if_invalid is the concatenation, entry by entry, of
+          - the unchanged text of an entry that passed validate_entry_by_rules, whose text is white-listed
+            (see `whitelisted`: plain text without < > &, an allowed named entity, a permitted numeric
+            entity, an allowed comment without < > &, a closing tag of an allowed paired tag, an opening
+            or self-closed tag of an allowed tag whose attributes are pairwise distinct, each allowed for
+            this tag with this value, every value free of < > and with & only in the 8 permitted spellings,
+            and nothing else between < and > but white space, names, =, and quotes), or
+          - nothing (remove_invalid) / escape4 of the text (escape_invalid) for an invalid entry;
+        and the entry texts are consecutive pieces of the (encoding-filtered) input ---- *)
+Theorem filter_shape :
+  forall xhtml comments numeric tag_kind entity_ok bool_ok val_ok m y,
+  let es := fst (filter_entries xhtml comments numeric tag_kind entity_ok bool_ok val_ok y) in
+  snd (vf_core xhtml comments numeric tag_kind entity_ok bool_ok val_ok m y) = concat (map (emit m) es) /\
+  concat (map e_text es) = y /\
+  Forall (fun e => if is_invalid e
+                   then emit m e = match m with RemoveInvalid => [] | EscapeInvalid => escape4 (e_text e) end
+                   else emit m e = e_text e /\
+                        rules_ok xhtml comments numeric tag_kind entity_ok bool_ok val_ok e = true /\
+                        whitelisted xhtml comments numeric tag_kind entity_ok bool_ok val_ok (e_text e)) es.
+Proof. exact vf_core_shape. Qed.
+Print Assumptions filter_shape.
+
+(* no_stray_markup: the result of filter(), in both modes, with or without an encoding, valid or not,
+   is a concatenation of white-listed token texts and of text in which < and > do not occur and &
+   occurs only as the start of &amp; &lt; &gt; &quot; &apos; &#x27; &#X27; &#39; (val_form) *)
+Theorem no_stray_markup :
+  forall xhtml comments numeric tag_kind entity_ok bool_ok val_ok has_enc enc_vof m x,
+  exists segs,
+    filter xhtml comments numeric tag_kind entity_ok bool_ok val_ok has_enc enc_vof m x = concat segs /\
+    Forall (seg_ok xhtml comments numeric tag_kind entity_ok bool_ok val_ok) segs.
+Proof. exact filter_segs. Qed.
+Print Assumptions no_stray_markup.
+
+Theorem escaped_text_is_harmless : forall t, val_form (escape4 t).
+Proof. exact escape4_form. Qed.
+Print Assumptions escaped_text_is_harmless.
+
+Theorem harmless_text_has_no_angle_bracket : forall v, val_form v -> ~ In 60 v /\ ~ In 62 v.
+Proof. exact val_form_no_angle. Qed.
+Print Assumptions harmless_text_has_no_angle_bracket.
+
+(* ---- 4. token_whitelisted: whatever validate accepts is a sequence of white-listed tokens; and the
+        executable check of attribute values is exactly the grammar val_form ---- *)
+Theorem token_whitelisted :
+  forall xhtml comments numeric tag_kind entity_ok bool_ok val_ok x n,
+  In n (nested xhtml x) ->
+  rules_ok xhtml comments numeric tag_kind entity_ok bool_ok val_ok n = true ->
+  whitelisted xhtml comments numeric tag_kind entity_ok bool_ok val_ok (e_text n).
+Proof. exact nested_whitelisted. Qed.
+Print Assumptions token_whitelisted.
+
+Theorem validate_only_whitelisted :
+  forall xhtml comments numeric tag_kind entity_ok bool_ok val_ok has_enc enc_valid x,
+  validate xhtml comments numeric tag_kind entity_ok bool_ok val_ok has_enc enc_valid x = true ->
+  exists segs, x = concat segs /\
+               Forall (whitelisted xhtml comments numeric tag_kind entity_ok bool_ok val_ok) segs.
+Proof. exact validate_whitelisted. Qed.
+Print Assumptions validate_only_whitelisted.
+
+Theorem attribute_value_grammar : forall v, value_ok v = true <-> val_form v.
+Proof. intros v. split; [exact (value_ok_form v)|exact (val_form_value_ok v)]. Qed.
+Print Assumptions attribute_value_grammar.
+
+Theorem nesting_keeps_order_and_content :
+  forall xhtml es, Forall2 erel es (nest xhtml es).
+Proof. exact nest_rel. Qed.
+Print Assumptions nesting_keeps_order_and_content.
+
+(* ---- 4b. stability (filter_validates): the text written by the filter passes validation under the
+        same rules - remove_invalid and escape_invalid, xhtml and html, proved in full.
+        Side conditions on the rule set (both hold for every rule set the public API can build, see
+        concrete_rules_side_conditions): kind_compat - rules::valid_tag gives the same answer for names that
+        ascii_streq identifies; esc_entities_ok (escape mode only) - lt gt amp quot are allowed entities.
+        The ingredients, each a theorem of its own: re-tokenising a concatenation of self-delimiting
+        tokens gives these tokens with adjacent plain pieces merged; entries that are not opening or
+        closing tags are inert for validate_nesting; the surviving tags of the first run are well nested
+        (wf); validate_nesting of a well nested sequence invalidates nothing and every entry passes the rules
+        (in html mode the second run may pair differently from the first - the verdict is the same). ---- *)
+Theorem filter_output_validates_core :
+  forall xhtml comments numeric tag_kind entity_ok bool_ok val_ok,
+  kind_compat xhtml tag_kind -> forall m, (m = EscapeInvalid -> esc_entities_ok entity_ok) -> forall y,
+  validate_core xhtml comments numeric tag_kind entity_ok bool_ok val_ok
+    (snd (vf_core xhtml comments numeric tag_kind entity_ok bool_ok val_ok m y)) = true.
+Proof. exact vf_core_validates. Qed.
+Print Assumptions filter_output_validates_core.
+
+(* with the encoding layer.  Premises about the abstract encoding validators: enc_agree and enc_vof_valid
+   (valid / validate_or_filter agree, filtered text is valid: property C14) and, when an encoding is set,
+   enc_ascii_compatible: the bytes & ; < > dquote are complete characters in every position, validity is
+   closed under concatenation, the ASCII words lt gt amp quot are valid *)
+Theorem filter_validates :
+  forall xhtml comments numeric tag_kind entity_ok bool_ok val_ok has_enc enc_valid enc_vof m x,
+  kind_compat xhtml tag_kind -> (m = EscapeInvalid -> esc_entities_ok entity_ok) ->
+  enc_agree enc_valid enc_vof -> enc_vof_valid enc_valid enc_vof ->
+  (has_enc = true -> enc_ascii_compatible enc_valid) ->
+  validate xhtml comments numeric tag_kind entity_ok bool_ok val_ok has_enc enc_valid
+    (filter xhtml comments numeric tag_kind entity_ok bool_ok val_ok has_enc enc_vof m x) = true.
+Proof. exact filter_validates_l. Qed.
+Print Assumptions filter_validates.
+
+Theorem filter_idempotent :
+  forall xhtml comments numeric tag_kind entity_ok bool_ok val_ok has_enc enc_valid enc_vof m x,
+  kind_compat xhtml tag_kind -> (m = EscapeInvalid -> esc_entities_ok entity_ok) ->
+  enc_agree enc_valid enc_vof -> enc_vof_valid enc_valid enc_vof ->
+  (has_enc = true -> enc_ascii_compatible enc_valid) ->
+  let f := filter xhtml comments numeric tag_kind entity_ok bool_ok val_ok has_enc enc_vof m in
+  f (f x) = f x.
+Proof.
+  intros xhtml comments numeric tag_kind entity_ok bool_ok val_ok has_enc enc_valid enc_vof m x Hk He Ha Hv HE f.
+  exact (valid_unchanged_l _ _ _ _ _ _ _ _ _ _ Ha m (f x) (filter_validates_l _ _ _ _ _ _ _ _ _ _ m x Hk He Ha Hv HE)).
+Qed.
+Print Assumptions filter_idempotent.
+
+Theorem concrete_rules_side_conditions :
+  forall r, kind_compat (c_xhtml r) (c_tag_kind r) /\ esc_entities_ok (c_entity_ok r).
+Proof. exact (fun r => conj (c_kind_compat r) (c_esc_entities_ok r)). Qed.
+Print Assumptions concrete_rules_side_conditions.
+
+Theorem concrete_filter_validates :
+  forall r vfun has_enc enc_valid enc_vof m x,
+  enc_agree enc_valid enc_vof -> enc_vof_valid enc_valid enc_vof ->
+  (has_enc = true -> enc_ascii_compatible enc_valid) ->
+  c_validate r vfun has_enc enc_valid (snd (c_validate_and_filter r vfun has_enc enc_vof m x)) = true.
+Proof. exact c_filter_validates. Qed.
+Print Assumptions concrete_filter_validates.
+
+Theorem retokenize : forall T, Forall stable T -> split (concat (map snd T)) = norm T.
+Proof. exact split_stable. Qed.
+Print Assumptions retokenize.
+
+Theorem nesting_of_well_nested_is_valid :
+  forall xhtml comments numeric tag_kind entity_ok bool_ok val_ok,
+  kind_compat xhtml tag_kind -> forall l, wf xhtml tag_kind bool_ok val_ok l ->
+  Forall (valid xhtml comments numeric tag_kind entity_ok bool_ok val_ok) (nest xhtml l).
+Proof. exact nest_wf_valid. Qed.
+Print Assumptions nesting_of_well_nested_is_valid.
+
+Theorem surviving_tags_are_well_nested :
+  forall xhtml comments numeric tag_kind entity_ok bool_ok val_ok es,
+  Forall tin es ->
+  wf xhtml tag_kind bool_ok val_ok (tagsurv xhtml comments numeric tag_kind entity_ok bool_ok val_ok (nest xhtml es)).
+Proof. exact nest_tagsurv_wf. Qed.
+Print Assumptions surviving_tags_are_well_nested.
+
+(* ---- 5. tie to the source: leaf functions regenerated from src/xss.cpp on every run are the
+        leaf functions of the model ---- *)
+Theorem src_char_classes : forall b, b < 256 ->
+  g_xss_isalpha (sch b) = is_alpha b /\ g_xss_isdigit (sch b) = is_digit b /\
+  g_xss_isalnum (sch b) = is_alnum b /\ g_xss_isxdigit (sch b) = is_xdigit b /\
+  g_xss_isspace (sch b) = is_space b /\ Z.to_N (wrapu 8 (g_xss_tolower (sch b))) = to_lower b.
+Proof.
+  exact (fun b H => conj (link_isalpha b H) (conj (link_isdigit b H) (conj (link_isalnum b H)
+          (conj (link_isxdigit b H) (conj (link_isspace b H) (link_tolower b H)))))).
+Qed.
+Print Assumptions src_char_classes.
+Theorem src_escape_table : forall b, b < 256 -> map Z.to_N (g_xss_escape_step (Z.of_N b)) = esc4 b.
+Proof. exact link_escape_step. Qed.
+Print Assumptions src_escape_table.
+Theorem src_code_point_test : forall cp, g_xss_cp_rejected (Z.of_N cp) = negb (cp_ok cp).
+Proof. exact link_cp_ok. Qed.
+Print Assumptions src_code_point_test.
+Theorem src_value_entities : map (map Z.to_N) g_xss_value_entities = value_entities.
+Proof. exact link_value_entities. Qed.
+Print Assumptions src_value_entities.
+
+(* ---- non-vacuity: a concrete rule set (xhtml; tag a: paired with attribute href checked by functor 0,
+        tag br: stand alone; entity nbsp), functor 0 = "does not start with j" ---- *)
+Definition ex_rules : crules :=
+  mkR true true true [[110;98;115;112]]
+      [ ([97], TPair, [([104;114;101;102], VFun 0)]); ([98;114], TAlone, []) ].
+Definition ex_vfun (k : N) (v : list N) : bool := match v with 106 :: _ => false | _ => true end.
+(* <a href="x">t</a><br/>&nbsp;&#65; *)
+Definition ex_good : list N :=
+  [60;97;32;104;114;101;102;61;34;120;34;62;116;60;47;97;62;60;98;114;47;62;38;110;98;115;112;59;38;35;54;53;59].
+(* <a href="j">t</a><s>&x *)
+Definition ex_bad : list N := [60;97;32;104;114;101;102;61;34;106;34;62;116;60;47;97;62;60;115;62;38;120].
+Example verdicts_nonvacuous :
+  c_validate ex_rules ex_vfun false (fun _ => true) ex_good = true /\
+  c_validate ex_rules ex_vfun false (fun _ => true) ex_bad = false /\
+  c_validate_and_filter ex_rules ex_vfun false (fun _ => None) RemoveInvalid ex_bad = (false, [116]) /\
+  c_validate_and_filter ex_rules ex_vfun false (fun _ => None) EscapeInvalid ex_bad
+    = (false, [38;108;116;59;97;32;104;114;101;102;61;38;113;117;111;116;59;106;38;113;117;111;116;59;38;103;116;59;
+               116;38;108;116;59;47;97;38;103;116;59;38;108;116;59;115;38;103;116;59;38;97;109;112;59;120]).
+Proof. vm_compute. repeat split. Qed.
+Example whitelist_nonvacuous :
+  exists n, In n (nested true ex_good) /\ e_type n = Open /\
+            rules_ok true true true (c_tag_kind ex_rules) (c_entity_ok ex_rules) (c_bool_ok ex_rules)
+                     (c_val_ok ex_rules ex_vfun) n = true.
+Proof. eexists. split; [vm_compute; left; reflexivity|]. split; vm_compute; reflexivity. Qed.
+
+(* the premises of filter_validates are satisfiable: "7-bit ASCII" as the encoding *)
+Definition ex_enc_valid (s : list N) : bool := forallb (fun c => c <? 128) s.
+Definition ex_enc_vof (s : list N) : option (list N) :=
+  if ex_enc_valid s then None else Some (List.filter (fun c => c <? 128) s).
+Example stability_premises_nonvacuous :
+  enc_agree ex_enc_valid ex_enc_vof /\ enc_vof_valid ex_enc_valid ex_enc_vof /\ enc_ascii_compatible ex_enc_valid /\
+  c_validate ex_rules ex_vfun true ex_enc_valid (snd (c_validate_and_filter ex_rules ex_vfun true ex_enc_vof RemoveInvalid (ex_bad ++ [200]))) = true /\
+  snd (c_validate_and_filter ex_rules ex_vfun true ex_enc_vof RemoveInvalid (ex_bad ++ [200])) = [116].
+Proof.
+  split; [|split; [|split; [|split; vm_compute; reflexivity]]].
+  - intros x. unfold ex_enc_vof. destruct (ex_enc_valid x); split; congruence.
+  - intros x y. unfold ex_enc_vof. destruct (ex_enc_valid x); [discriminate|]. intros H. inversion H; subst.
+    unfold ex_enc_valid. apply forallb_forall. intros c Hc. apply filter_In in Hc. exact (proj2 Hc).
+  - unfold ex_enc_valid. constructor; try reflexivity.
+    + intros a c b Hc. rewrite forallb_app. cbn [forallb]. f_equal.
+      assert (Hlt : (c <? 128) = true).
+      { unfold syncb in Hc. repeat (apply orb_true_iff in Hc; destruct Hc as [Hc|Hc]);
+          apply N.eqb_eq in Hc; subst c; reflexivity. }
+      rewrite Hlt. reflexivity.
+    + intros a b Ha Hb. rewrite forallb_app, Ha, Hb. reflexivity.
+Qed.
